@@ -1,5 +1,5 @@
 """C03 - see DESIGN.md section 5"""
 from . import semprops, semjobs
-spec, validate = semprops.make(['stable','stable_with_prefilter'], 'stable')
-replay = semjobs.replay
-key = semjobs.key
+spec, validate = semprops.make(['stable','stable_with_prefilter'], 'stable', backend_kinds=('stable',))
+replay = semprops.replay
+key = semprops.key
